@@ -4,10 +4,25 @@
 #include "K_pdm_get_index.c"
 #include "K_pds_get_offset.c"
 #include "K_fss_reorder.c"
+#define CONTRACT_K_pd_set_segment_by_sinogram CONTRACT_K_pd_set_segment
+#define CONTRACT_K_pd_set_segment_by_view CONTRACT_K_pd_set_segment
+#define CONTRACT_K_pd_get_segment_by_sinogram CONTRACT_K_pd_get_segment
+#define CONTRACT_K_pd_get_segment_by_view CONTRACT_K_pd_get_segment
+#include "K_pd_set_segment_by_sinogram.c"
+#include "K_pd_set_segment_by_view.c"
+#include "K_pd_get_segment_by_sinogram.c"
+#include "K_pd_get_segment_by_view.c"
+#include "K_pd_set_related_viewgrams.c"
+#include "K_pd_fill_value.c"
+#include "K_pd_fill_from.c"
 #include "K_pdm_set_viewgram.c"
 #include "K_pdm_get_viewgram.c"
 #include "K_pdm_set_sinogram.c"
 #include "K_pdm_get_sinogram.c"
+#include "K_pdm_get_bin_value.c"
+#include "K_pdm_set_bin_value.c"
+#include "K_pdm_set_segment.c"
+#include "K_pdm_get_segment.c"
 #include "K_pds_set_bin_value.c"
 #include "K_pds_set_viewgram.c"
 #include "K_pds_set_sinogram.c"
@@ -58,6 +73,22 @@ static void ghosts_read(void) { ghosts_stream(); g_reads = 0; g_mult = 0; g_mult
 void h_K_pds_get_bin_value(void) { struct PD* s; struct Bin* b; ghosts_read(); K_pds_get_bin_value(s, b); }
 void h_K_pds_get_viewgram(void) { struct PD* s; ghosts_read(); K_pds_get_viewgram(s, nondet_int(), nondet_int(), nondet_int()); }
 void h_K_pds_get_sinogram(void) { struct PD* s; ghosts_read(); K_pds_get_sinogram(s, nondet_int(), nondet_int(), nondet_int()); }
+void h_K_pdm_get_bin_value(void) { struct PD* s; struct Bin* b; ghosts_path(); K_pdm_get_bin_value(s, b); }
+void h_K_pdm_set_bin_value(void) { struct PD* s; struct Bin* b; ghosts_path(); K_pdm_set_bin_value(s, b); }
+void h_K_pdm_set_segment(void) { struct PD* s; ghosts_path(); K_pdm_set_segment(s, nondet_int(), nondet_int()); }
+void h_K_pdm_get_segment(void) { struct PD* s; ghosts_path(); K_pdm_get_segment(s, nondet_int(), nondet_int()); }
+static void ghosts_loops(void)
+{
+  ghosts();
+  g_k1 = nondet_int(); g_k2 = nondet_int(); g_k3 = nondet_int(); g_calls = 0; g_bad = 0; g_failed = 0; g_want_seg = nondet_int(); g_want_tof = nondet_int();
+}
+void h_K_pd_set_segment_by_sinogram(void) { struct PD* s; ghosts_loops(); K_pd_set_segment_by_sinogram(s); }
+void h_K_pd_set_segment_by_view(void) { struct PD* s; ghosts_loops(); K_pd_set_segment_by_view(s); }
+void h_K_pd_get_segment_by_sinogram(void) { struct PD* s; ghosts_loops(); K_pd_get_segment_by_sinogram(s, nondet_int(), nondet_int()); }
+void h_K_pd_get_segment_by_view(void) { struct PD* s; ghosts_loops(); K_pd_get_segment_by_view(s, nondet_int(), nondet_int()); }
+void h_K_pd_set_related_viewgrams(void) { ghosts_loops(); K_pd_set_related_viewgrams(nondet_int()); }
+void h_K_pd_fill_value(void) { struct PD* s; ghosts_loops(); K_pd_fill_value(s); }
+void h_K_pd_fill_from(void) { struct PD* s; ghosts_loops(); K_pd_fill_from(s); }
 void h_K_fss_reorder(void)
 {
   g_r = nondet_int(); g_zero = nondet_int(); g_rloc = nondet_int(); g_fss_min_seg = nondet_int(); g_fss_max_seg = nondet_int();
